@@ -318,7 +318,6 @@ Lemma lmax_in l : l <> [] -> In (lmax l) l.
 Proof. destruct l as [|h t]; [congruence|]. intros _. cbn [lmax]. destruct (fold_qmax_in t h) as [E|E]; [left; symmetry; exact E | right; exact E]. Qed.
 
 (* ---------- change of one cell vector by a scalar factor ---------- *)
-Definition meqR := meq.
 #[export] Instance meq_Equiv : Equivalence meq.
 Proof.
   split.
@@ -607,10 +606,10 @@ Proof.
     { unfold cr. rewrite c_real_eq. rewrite Hcn. unfold u, k, vscale, vsub, veq; cbn [vx vy vz]. repeat split; field; lra. }
     set (off := to_scaled (set_row ax m cn) (vscale (1 # 2) (vsub cr cn))).
     assert (Hax : forall p, getc ax (vsub (s2 cn p) off) == (mc_f p - mc_smin) / k - u / k).
-    { intro p. transitivity (getc ax (s2 cn p) - getc ax off); [destruct ax; reflexivity|].
+    { intro p. rewrite getc_vsub.
       rewrite (s2_ax cn k Hk Hcn p). unfold off. rewrite (off_ax cn k Hk Hcn u _ Hoffv). reflexivity. }
     assert (Hoth : forall p a, a <> ax -> getc a (vsub (s2 cn p) off) == getc a (to_scaled m p)).
-    { intros p a Ha. transitivity (getc a (s2 cn p) - getc a off); [destruct a; reflexivity|].
+    { intros p a Ha. rewrite getc_vsub.
       rewrite (s2_other cn k Hk Hcn a p Ha). unfold off. rewrite (off_other cn k Hk Hcn u _ a Hoffv Ha). ring. }
     repeat match goal with |- _ /\ _ => split end.
     + reflexivity.
@@ -627,7 +626,7 @@ Proof.
     + rewrite row_set_row_same. rewrite (sqlen_newbasis cn k Hcn).
       unfold qmax. destruct (Qle_bool (mc_e * L * (mc_e * L)) (ms * ms)) eqn:E.
       * unfold k. field. lra.
-      * apply Qle_bool_false in E. nra.
+      * apply Qle_bool_false in E. pose proof (sq_lt _ _ (Qmult_le_0_compat _ _ He (Qlt_le_weak _ _ HL)) Hp). lra.
     + split; [intros _; exact Hp | reflexivity].
     + apply Forall_map_intro. intros p Hin. rewrite Hax. destruct (f_bounds p Hin). apply pad_bounds; assumption.
     + apply Forall2_map_intro. intros p Hin. apply Hoth.
@@ -640,7 +639,7 @@ Proof.
     assert (Hp : ~ mc_e * L < ms) by (intro H; apply padded_iff in H; congruence).
     set (cn := vsub (to_cartesian m (setc ax vzero mc_smax)) (to_cartesian m (setc ax vzero mc_smin))).
     set (k := mc_e).
-    assert (Hk0 : 0 < k) by (unfold k; nra).
+    assert (Hk0 : 0 < k) by (apply (pos_factor mc_e L ms Hms HL He Hp)).
     assert (Hk : ~ k == 0) by lra.
     assert (Hcn : veq cn (vscale k c)) by apply c_real_eq.
     repeat match goal with |- _ /\ _ => split end.
@@ -657,7 +656,7 @@ Proof.
     + apply (det_newbasis_nz cn k Hk Hcn).
     + rewrite row_set_row_same. rewrite (sqlen_newbasis cn k Hcn).
       unfold qmax, k. destruct (Qle_bool (mc_e * L * (mc_e * L)) (ms * ms)) eqn:E.
-      * apply Qle_bool_iff in E. apply Qle_antisym; [exact E | nra].
+      * apply Qle_bool_iff in E. apply Qle_antisym; [exact E | apply (sq_le _ _ Hms); apply Qnot_lt_le; exact Hp].
       * reflexivity.
     + split; [discriminate | intro H; contradiction].
     + apply Forall_map_intro. intros p Hin. rewrite (s2_ax cn k Hk Hcn). destruct (f_bounds p Hin).
@@ -673,7 +672,7 @@ End MinCell.
 (* ---------- the statement about get_minimized_cell, closed ---------- *)
 Theorem minimized_cell_spec m pbc nums ps ax ms L :
   ~ det m == 0 -> ps <> [] -> 0 < ms -> 0 < L -> L * L == dot (row ax m) (row ax m) ->
-  mc_spec m nums pbc ps ax ms L (min_cell m pbc nums ps ax ms L).
+  mc_spec m pbc nums ps ax ms L (min_cell m pbc nums ps ax ms L).
 Proof. intros. apply minimized_cell_spec_sec; assumption. Qed.
 
 Lemma Forall2_nth {A B} (R : A -> B -> Prop) l l' d d' i :
